@@ -762,6 +762,65 @@ func (x *g) conc(st *gstate) *Conc {
 	return cc
 }
 
+// deepChain draws the loads of ONE inheritance chain h0 <- h1 <- .. <- h<links>: the root is a source of the grammar
+// with all four blocks that prints a variable every data set supplies; every further level is a derived source
+// of the grammar (overriding some of the blocks). Returns the names, root first.
+func (x *g) deepChain(st *gstate) ([]Op, []string) {
+	links := []int{1, 2, 3, 6, 6, 8, 12, 12}[x.uniform(8, "deeplinks")]
+	v := x.variable().S
+	if x.mustVars == nil {
+		x.mustVars = map[string]bool{}
+	}
+	x.mustVars[v] = true
+	root := "H {{" + v + "}} " + serialise(x.top(1, 3, blockNames, false))
+	ops := []Op{{K: "load", Name: "h0", Src: root}}
+	names := []string{"h0"}
+	st.loaded["h0"] = "text"
+	for i := 1; i <= links; i++ {
+		name, parent := "h"+strconv.Itoa(i), "h"+strconv.Itoa(i-1)
+		ops = append(ops, Op{K: "load", Name: name, Src: x.childSource(parent)})
+		names = append(names, name)
+		st.loaded[name] = "text"
+		st.kids[parent]++
+		st.depth[name] = i
+	}
+	return ops, names
+}
+
+// deepConc draws a gated concurrent phase of many goroutines (past 8 / 16 / 32) whose first renders - of the deepest
+// template of the chain mostly - are all in flight at the same moment; a few second jobs: further renders, loads of
+// derived templates of chain members / removals under names nobody renders.
+func (x *g) deepConc(st *gstate, chain []string) *Conc {
+	cc := &Conc{Procs: x.intn(2, 8, "procs"), Gate: true}
+	nw := []int{6, 9, 12, 17, 17, 24, 33}[x.uniform(7, "deepworkers")]
+	if kit.RaceMode() && nw > 12 {
+		nw = 12
+	}
+	leaf := chain[len(chain)-1]
+	free := append([]string(nil), concNames...)
+	for w := 0; w < nw; w++ {
+		name := leaf
+		if w >= 2 && x.chance(30, "deepname") {
+			name = chain[x.uniform(len(chain), "deeplevel")]
+		}
+		jobs := []Op{{K: "render", Name: name, Entry: x.uniform(2, "jentry"), Data: x.intn(0, 2, "jdata")}}
+		if x.chance(25, "deepjob2") {
+			switch k := x.uniform(100, "deepjob2k"); {
+			case k < 50:
+				jobs = append(jobs, Op{K: "render", Name: chain[x.uniform(len(chain), "deeplevel2")], Entry: x.uniform(2, "jentry"), Data: x.intn(0, 2, "jdata")})
+			case k < 85 && len(free) > 0:
+				jobs = append(jobs, Op{K: "load", Name: free[0], Src: x.childSource(chain[x.uniform(len(chain), "deepparent")])})
+				free = free[1:]
+			case len(free) > 0:
+				jobs = append(jobs, Op{K: "remove", Name: free[0]})
+				free = free[1:]
+			}
+		}
+		cc.Workers = append(cc.Workers, jobs)
+	}
+	return cc
+}
+
 func minInt(a, b int) int {
 	if a < b {
 		return a
@@ -825,6 +884,13 @@ func genCase(t *rapid.T) Case {
 			bulk[op.Name] = true
 		}
 	}
+	// one deep inheritance chain, rendered by many goroutines at once further down
+	var deep []string
+	if x.chance(kit.Scale(6, 4), "deep") {
+		var ops []Op
+		ops, deep = x.deepChain(st)
+		c.Ops = append(c.Ops, ops...)
+	}
 	// closing renders: what does every loaded name produce after all that happened?
 	for _, n := range st.names() {
 		pc := 75
@@ -851,8 +917,12 @@ func genCase(t *rapid.T) Case {
 		}
 	}
 	var conc *Conc
-	if race || x.chance(40, "conc") {
+	switch {
+	case deep != nil:
+		conc = x.deepConc(st, deep)
+	case race || x.chance(40, "conc"):
 		conc = x.conc(st)
+		conc.Gate = x.chance(25, "gate") // the first renders of the goroutines meet inside the render
 	}
 	nd := x.intn(1, 3, "ndatas")
 	if nd < minDatas {
@@ -900,6 +970,9 @@ func describe(res *kit.Result, c *Case, x *runner, ranConc bool) {
 	concMutWorkers := map[int]bool{}
 	if c.Conc != nil {
 		sk.WriteString("||")
+		if c.Conc.Gate {
+			sk.WriteString("gate|")
+		}
 		first := map[string]int{}
 		for wi, w := range c.Conc.Workers {
 			for _, j := range w {
